@@ -160,9 +160,14 @@ def case_task(task):
         forests = [gen.AForest.from_desc(d) for d in c["forests"]]
         n = c["n"]
         sizes = [int(rng.integers(1, 4)) for _ in range(n)] if c.get("cluster_sizes") else None
-        data = gen.make_data(rng, n, D, G, kind=c["kind"], outlier_prior=op, sizes=sizes)
+        priors = op
+        if op > 0 and c["id"] % 3 == 1:
+            # clusters with and without an outlier prior in one data set (a cluster file whose outlier_prob column is 0 for
+            # some clusters): the prior term applies point by point
+            priors = [op if rng.random() < 0.6 else 0.0 for _ in range(n)]
+        data = gen.make_data(rng, n, D, G, kind=c["kind"], outlier_prior=priors, sizes=sizes)
         values = {i: dp.value for i, dp in enumerate(data)}
-        oterms = {i: ((dp.outlier_prob, dp.outlier_prob_not) if op > 0 else None) for i, dp in enumerate(data)}
+        oterms = {i: ((dp.outlier_prob, dp.outlier_prob_not) if dp.outlier_prob != 0 else None) for i, dp in enumerate(data)}
         compute_log_S.cache_clear()
         _convolve_two_children.cache_clear()
         built = []
@@ -284,6 +289,7 @@ def run(ctx):
     tasks = [{"seed": ctx.seed, "cases": [b]} for b in bigs]
     tasks += [{"seed": ctx.seed, "cases": cases[i::32]} for i in range(32)]
     ctx.map("checks.c03", "case_task", tasks, timeout=3000)
+    ctx.map("checks.c03", "case_task", tasks[::5][:8], timeout=3000, python_flags=("-O",))  # assertions off
     if ctx.counters.get("big_trees_evaluated", 0) < 3:
         ctx.inconc("big trees not evaluated (all outside the underflow window?)")
     if ctx.counters.get("evaluations", 0) < 500:
